@@ -390,6 +390,83 @@ def work_options(_):
     return res
 
 
+# ----------------------------------------------------------------------------- (E) generate_code: numeric lattice and TDM arrays
+def _regen(P):
+    with warnings.catch_warnings():
+        warnings.simplefilter("ignore")
+        code = sf.io.generate_code(P)
+    # the generated script uses np.pi without importing numpy (recorded finding, judged once in work_codegen): numpy is
+    # supplied here so that the numbers themselves can be judged
+    ns = {"np": np}
+    exec(code.replace("eng.run", "pass # eng.run").replace("results =", "results = None #"), ns)  # noqa: S102
+    return ns.get("prog"), code
+
+
+def work_codegen(task):
+    """every multiple k pi/12, |k| <= 60, exactly and with offsets of +-1e-9 (inside the generator's snapping tolerance)
+    and +-1e-4 (outside it), and ordinary values, in the first and second slot of a gate and in TDM arrays: the
+    regenerated program carries the same numbers (to the 2.6e-6 the generator's documented rounding to multiples of pi/12 may move them)"""
+    ks = task
+    res = Res()
+    TOL = 3e-6
+    if 0 in ks:
+        # the generated text must run as it stands
+        res.n += 1
+        P = sf.Program(1)
+        with P.context as q:
+            ops.Rgate(PI / 2) | q[0]
+        with warnings.catch_warnings():
+            warnings.simplefilter("ignore")
+            code = sf.io.generate_code(P)
+        try:
+            exec(code, {})  # noqa: S102
+        except NameError as e:
+            res.violation("C14|generate_code|script-not-executable|NameError", f"the script generated for Rgate(pi/2) does not run as it stands: {e} (it writes np.pi but never imports numpy)", {"kind": "codegen-exec"})
+        except Exception as e:  # noqa: BLE001
+            res.violation(f"C14|generate_code|script-not-executable|{type(e).__name__}", f"the script generated for Rgate(pi/2) does not run as it stands: {e!r}", {"kind": "codegen-exec"})
+    for k in ks:
+        for off in (0.0, 1e-9, -1e-9, 1e-4, -1e-4):
+            v = k * PI / 12 + off
+            res.n += 1
+            res.nt += 1
+            case = {"kind": "codegen-lattice", "k": k, "off": off}
+            P = sf.Program(2)
+            with P.context as q:
+                ops.Rgate(v) | q[0]
+                ops.BSgate(0.3, v) | (q[0], q[1])
+            try:
+                Q, code = _regen(P)
+                got = [float(Q.circuit[0].op.p[0]), float(Q.circuit[1].op.p[1])]
+            except Exception as e:  # noqa: BLE001
+                res.violation(f"C14|generate_code|raises|{type(e).__name__}", f"generate_code / executing the generated code for the value {k} pi/12 + {off} raised {e!r}", case)
+                continue
+            if max(abs(g - v) for g in got) > TOL:
+                kind = "exact-multiple" if off == 0 else ("near-multiple" if abs(off) < 1e-6 else "ordinary")
+                sign = "negative" if v < 0 else "positive"
+                res.violation(f"C14|generate_code|numeric-value|{kind}|{sign}", f"generate_code writes the gate parameter {v!r} (= {k} pi/12 {off:+g}) so that the regenerated program carries {got}", case)
+        # the same values inside the per-bin arrays of a time-domain program
+        res.n += 1
+        case = {"kind": "codegen-tdm", "k": k}
+        arr = [k * PI / 12, 0.3, -k * PI / 12 + 1e-9]
+        P = sf.TDMProgram(N=2)
+        try:
+            with warnings.catch_warnings():
+                warnings.simplefilter("ignore")
+                with P.context(arr, [0.1, 0.2, 0.3]) as (pp, q):
+                    ops.Rgate(pp[0]) | q[1]
+                    ops.BSgate(pp[1], 0.0) | (q[1], q[0])
+                    ops.MeasureHomodyne(0.0) | q[0]
+            Q, code = _regen(P)
+            got = [float(x) for x in Q.tdm_params[0]]
+        except Exception as e:  # noqa: BLE001
+            res.stats[f"generate_code-tdm-raises:{type(e).__name__}"] += 1
+            continue
+        res.nt += 1
+        if len(got) != len(arr) or max(abs(g - a) for g, a in zip(got, arr)) > TOL:
+            res.violation("C14|generate_code|tdm-array-value", f"generate_code writes the TDM array {arr} so that the regenerated program carries {got}", case)
+    return res
+
+
 # ----------------------------------------------------------------------------- (D) TDM programs
 def work_tdm(_):
     res = Res()
@@ -431,7 +508,7 @@ def work_tdm(_):
 
 def _dispatch(task):
     kind, arg = task
-    return {"single": work_single, "fixed": work_fixed, "seq": work_seq, "options": work_options, "tdm": work_tdm}[kind](arg)
+    return {"single": work_single, "fixed": work_fixed, "seq": work_seq, "options": work_options, "tdm": work_tdm, "codegen": work_codegen}[kind](arg)
 
 
 def run(ctx):
@@ -441,6 +518,8 @@ def run(ctx):
     for a in SEQ:
         tasks.append(("seq", ((a,), L)))
     tasks += [("options", None), ("tdm", None)]
+    ks = list(range(-60, 61))
+    tasks += [("codegen", ks[i : i + 8]) for i in range(0, len(ks), 8)]
     for r in ctx.pmap(_dispatch, tasks):
         ctx.add(r)
     ctx.cov["operation_classes"] = sorted({c.split(".")[0] for c in REAL_OPS} | {l.split("(")[0] for l in FIXED})
@@ -458,6 +537,12 @@ def replay(case):
     elif k == "seq":
         r = work_seq((tuple(case["seq"]), len(case["seq"])))
         sel = lambda c: c.get("seq") == case["seq"] and c.get("ir") == case.get("ir")
+    elif k == "codegen-exec":
+        r = work_codegen([0])
+        sel = lambda c: c.get("kind") == "codegen-exec"
+    elif k in ("codegen-lattice", "codegen-tdm"):
+        r = work_codegen([case["k"]])
+        sel = lambda c: all(c.get(x) == case.get(x) for x in case)
     elif k in ("options", "generate_code"):
         r = work_options(None)
         sel = lambda c: all(c.get(x) == case.get(x) for x in case)
